@@ -1,4 +1,77 @@
-(* C35 — placeholder while the pipeline is brought up *)
-From FH Require Import Model.Base Gen.GenC35 Model.Multipart Spec.MultipartSpec.
-Example C35_ex_empty : write_form (s2b "B") (Build_mform [] []) = WOk (s2b "" ++ crlf ++ s2b "--B--" ++ crlf).
-Proof. reflexivity. Qed.
+(* C35 — Multipart forms round-trip; upload temp files do not outlive the request.
+   Statements only; proofs live in Proof/MultipartProof.v. *)
+From FH Require Import Model.Base Gen.GenC35 Model.Multipart Spec.MultipartSpec Proof.MultipartProof.
+
+(* (a) For every boundary SetBoundary accepts and every form in the domain form_ok (distinct keys, no empty
+   value lists, non-empty names without control characters, file names without '/', a Content-Type without
+   control characters or outer blanks, and every value / file content free of CRLF--boundary, also at its
+   start without the CRLF): WriteMultipartForm succeeds and readMultipartForm over exactly the written bytes
+   returns the same values (per key, in order) and the same files (name, Content-Type, content). *)
+Theorem C35_roundtrip : forall b f, valid_boundary b = true -> form_ok b f = true ->
+  exists out, write_form b f = WOk out /\ read_form b (Z.of_nat (length out)) out = Some f.
+Proof. exact roundtrip. Qed.
+Print Assumptions C35_roundtrip.
+
+(* the hypothesis boundary_free is needed: a value that contains the delimiter does not come back *)
+Theorem C35_roundtrip_needs_boundary_free : exists b f out,
+  valid_boundary b = true /\ write_form b f = WOk out /\
+  read_form b (Z.of_nat (length out)) out <> Some f.
+Proof.
+  exists (s2b "B"), (Build_mform [(s2b "a", [s2b "x" ++ crlf ++ s2b "--B" ++ crlf ++ s2b "y"])] []).
+  eexists. split; [reflexivity|]. split; [vm_compute; reflexivity|]. vm_compute. discriminate.
+Qed.
+Print Assumptions C35_roundtrip_needs_boundary_free.
+
+(* a field with an empty name is written but dropped by the parser (outside the domain, stated for the record) *)
+Example C35_ex_empty_name_dropped :
+  match write_form (s2b "B") (Build_mform [(s2b "", [s2b "v"])] []) with
+  | WOk out => read_form (s2b "B") (Z.of_nat (length out)) out = Some (Build_mform [] [])
+  | _ => False
+  end.
+Proof. vm_compute. reflexivity. Qed.
+
+(* WriteMultipartForm's error cases *)
+Example C35_ex_write_errors :
+  write_form [] (Build_mform [] []) = WErrEmptyBoundary /\
+  write_form (s2b "bad boundary ") (Build_mform [] []) = WErrBadBoundary /\
+  write_form (s2b "a""b") (Build_mform [] []) = WErrBadBoundary /\
+  read_form (s2b "B") 0 (s2b "--B--") = None.
+Proof. vm_compute. repeat split; reflexivity. Qed.
+
+(* (b) For every history of a connection (any requests, any handler operations, timeouts, keep-alive or not):
+   every temporary file on disk belongs to the request being handled or to a timed-out request ... *)
+Theorem C35_tempfiles_accounted : forall c s, creach c s -> accounted s.
+Proof. exact creach_accounted. Qed.
+Print Assumptions C35_tempfiles_accounted.
+
+(* ... so when the next request is dispatched nothing of the earlier requests is left (timed-out ones excepted) *)
+Theorem C35_tempfiles_gone_at_next_dispatch : forall c s d s', creach c s -> cstep c s (VDispatch d) = Some s' ->
+  only_excepted (c_disk s) (c_detached s).
+Proof. exact gone_at_next_dispatch. Qed.
+Print Assumptions C35_tempfiles_gone_at_next_dispatch.
+
+(* ... and nothing is left once the connection is closed *)
+Theorem C35_tempfiles_gone_at_close : forall c s, creach c s -> c_ph s = CClosed ->
+  only_excepted (c_disk s) (c_detached s).
+Proof. exact gone_at_close. Qed.
+Print Assumptions C35_tempfiles_gone_at_close.
+
+(* without timeouts "excepted" is empty: TMPDIR is empty between requests and after the close *)
+Theorem C35_tempfiles_none_without_timeout : forall c tr s, crun c cinit tr = Some s -> ~ In VTimeout tr ->
+  match c_ph s with CHandling _ => True | _ => c_disk s = [] end.
+Proof. exact no_timeout_disk_empty. Qed.
+Print Assumptions C35_tempfiles_none_without_timeout.
+
+(* non-vacuity: a streamed upload spills two parts into one temporary file, which is gone at the next dispatch;
+   a timed-out request keeps its file *)
+Example C35_ex_history :
+  let c := Build_scfg true false in
+  let big := Build_reqd true true [5000; 5000; 9000]%Z true in
+  option_map c_disk (crun c cinit [VDispatch big; VOp OForm]) = Some [14000%Z] /\
+  option_map c_disk (crun c cinit [VDispatch big; VOp OForm; VReturn true]) = Some [] /\
+  option_map c_disk (crun c cinit [VDispatch big; VOp OForm; VOp ODrop]) = Some [] /\
+  option_map (fun s => (c_disk s, c_detached s)) (crun c cinit [VDispatch big; VOp OForm; VTimeout; VReturn true])
+    = Some ([14000%Z], [14000%Z]) /\
+  tmpfiles_of defaultMaxInMemoryFileSize [16777216; 1]%Z = [1%Z] /\
+  tmpfiles_of defaultMaxInMemoryFileSize [16777216]%Z = [].
+Proof. vm_compute. repeat split; reflexivity. Qed.
